@@ -299,7 +299,7 @@ func normalize(w *engine.World, evs []engine.Event) string {
 	var lines []string
 	for _, ev := range evs {
 		var b strings.Builder
-		fmt.Fprintf(&b, "f%d(", ev.Func)
+		fmt.Fprintf(&b, "f%d(", canonID(ev.Func))
 		for _, a := range ev.Args {
 			org, ok := w.Origin(a.Tok)
 			if !ok {
@@ -309,7 +309,7 @@ func normalize(w *engine.World, evs []engine.Event) string {
 			if org.Input {
 				fmt.Fprintf(&b, "%s<-in#%d;", a.L, a.Tok)
 			} else {
-				fmt.Fprintf(&b, "%s<-f%d:%s;", a.L, org.Func, org.L)
+				fmt.Fprintf(&b, "%s<-f%d:%s;", a.L, canonID(org.Func), org.L)
 			}
 		}
 		fmt.Fprintf(&b, ")err=%v ", ev.Err != nil)
